@@ -744,3 +744,9 @@ Theorem C15_lin_to_string_injective_unsorted :
   wf (lin_known l') -> lin_to_string l = lin_to_string l' -> l = l'.
 Proof. exact lin_to_string_inj_coefs. Qed.
 Print Assumptions C15_lin_to_string_injective_unsorted.
+
+Theorem C15_assertion_key_injective :
+  forall (s : var) (g : bool) (c : irat) (s' : var) (g' : bool) (c' : irat),
+  icanon c -> icanon c' -> asrt_key s g c = asrt_key s' g' c' -> s = s' /\ g = g' /\ c = c'.
+Proof. exact asrt_key_inj. Qed.
+Print Assumptions C15_assertion_key_injective.
